@@ -29,8 +29,17 @@ REFU\tequ USEDS+1
 SEL3\tequ 3
 """ + "".join(
     "%s%d\tmacro PM,%s\n\t%s %s\n\tdb PM\n\tendif\n\tendm\n" % (nm, n, ",".join("PQ%d" % i for i in range(n)), op, ",".join("PQ%d" % i for i in range(n)))
-    for n in range(2, 6) for nm, op in (("tb", "ifb"), ("tn", "ifnb")))
+    for n in range(2, 6) for nm, op in (("tb", "ifb"), ("tn", "ifnb"))) + (
+    # leaves written as macro calls whose body leaves through EXITM from inside its own conditionals (the manual: EXITM ends the
+    # expansion and closes what the body opened - the caller's open constructs must be exactly as before the call), or that open
+    # and close constructs of their own; 238 would be a statement behind the EXITM
+    "lva\tmacro PM\n\tdb PM\n\tif T1\n\texitm\n\tendif\n\tdb 238\n\tendm\n"
+    "lvb\tmacro PM\n\tswitch SEL3\n\tcase 1\n\tdb 238\n\tcase 3\n\tdb PM\n\texitm\n\tendcase\n\tdb 238\n\tendm\n"
+    "lvc\tmacro PM\n\tif T1\n\tif F0\n\tdb 238\n\telse\n\tdb PM\n\texitm\n\tendif\n\tendif\n\tdb 238\n\tendm\n"
+    "lvd\tmacro PM\n\trept 2\n\tif T1\n\tdb PM\n\texitm\n\tendif\n\tdb 238\n\tendm\n\tendm\n"
+    "lve\tmacro PM\n\tif F0\n\tdb 238\n\telseif T1\n\tdb PM\n\tendif\n\tendm\n")
 HEADER_LINES = HEADER.count("\n")
+LEAF_MACROS = ["lva", "lvb", "lvc", "lvd", "lve"]
 
 TRUE_EXPR = ["1", "7", "T1", "2>1", "F0==0", "-1", "T1+T1", "DEFD", "256", "512", "65536", "T1<<8", "-256", "DEFD<<16"]
 FALSE_EXPR = ["0", "F0", "1>2", "T1-1", "T1==F0", "F0*5"]
@@ -74,7 +83,10 @@ def flatten(rng, block, out, macros=False):
     (blank / non-blank *macro arguments*)."""
     for node in block:
         if node[0] == "leaf":
-            out.append(("L", None))
+            if macros and rng.random() < 0.25:
+                out.append(("L", "\t%s %%d" % rng.choice(LEAF_MACROS)))
+            else:
+                out.append(("L", None))
         elif (macros and node[0] == "if" and node[1][0] == "b" and 2 <= len(node[1][2]) <= 5 and node[2] == [("leaf",)]
               and not node[3] and node[4] is None and rng.random() < 0.6):
             neg, flags = node[1][1], node[1][2]
